@@ -184,7 +184,8 @@ def scenarios():
         T, T, T, T])
     # the confirmed parent of a mempool tx is orphaned and returns to the mempool: the child's
     # script is touched by nothing, yet its status changes (height 0 -> -1)
-    out['parent-unconfirms'] = dict(mempool0=('t1', 't2'), script=lambda: [
+    out['parent-unconfirms'] = dict(mempool0=('t1', 't2'), subs={'c1': WATCH, 'c2': ('C',)},
+                                    script=lambda: [
         ev_state('block(t1)', blocks=extended([('t1',)]), names=('t2',)), T, T, T,
         ev_state('fork:parent-back-in-mempool', blocks=forked(1, [(), ()], over=extended([('t1',)])),
                  names=('t1', 't2')), T, T, T, T])
